@@ -77,6 +77,10 @@ func (cache *Cache) Sign(message []byte) (sig hotstuff.QuorumSignature, err erro
 
 // Verify verifies the given quorum signature against the message.
 func (cache *Cache) Verify(signature hotstuff.QuorumSignature, message []byte) error {
+	if signature == nil {
+		// nothing to remember; the implementation rejects it
+		return cache.impl.Verify(signature, message)
+	}
 	var key strings.Builder
 	_ = key.WriteByte(keyVerify)
 	hash := sha256.Sum256(message)
@@ -98,6 +102,9 @@ func (cache *Cache) Verify(signature hotstuff.QuorumSignature, message []byte) e
 
 // BatchVerify verifies the given quorum signature against the batch of messages.
 func (cache *Cache) BatchVerify(signature hotstuff.QuorumSignature, batch map[hotstuff.ID][]byte) error {
+	if signature == nil {
+		return cache.impl.BatchVerify(signature, batch)
+	}
 	// sort the list of ids from the batch map
 	ids := slices.Sorted(maps.Keys(batch))
 	var hash hotstuff.Hash
